@@ -6,6 +6,7 @@
               ordered effects it must perform and the machine state after the call
      eff      one effect executed (the harness counts them: a crash lands after exactly that many)
      crash    the process dies here
+     stop     graceful stop while idle (context cancelled; Close flushes the buffered records)
      recover  a new driver starts: expected start height and the durable log content
      rp/skip  one log entry replayed (its effects in replay mode) / skipped
      ready    replay finished: the recovered machine's state
@@ -16,7 +17,7 @@
    changes are frequent. *)
 EXTENDS MCDriver, Json
 
-CONSTANTS MaxSteps, CrashOdds
+CONSTANTS MaxSteps, CrashOdds, StopOdds
 
 VARIABLES hist, steps
 mbtvars == <<vars, hist, steps>>
@@ -44,6 +45,7 @@ TimeoutInput == tmo # {} /\ \E t \in R(tmo) : Input(InTimeout(t))
 SimNext ==
   IF mode = "crashed" THEN Recover
   ELSE IF RandomElement(1..CrashOdds) = 1 /\ ncr < MaxCrashes THEN Crash
+  ELSE IF queue = <<>> /\ mode = "listen" /\ sm.started /\ ncr < MaxCrashes /\ RandomElement(1..StopOdds) = 1 THEN Stop
   ELSE IF queue # <<>> THEN Effect
   ELSE IF mode = "replay" THEN ReplayNext \/ ReplayDone
   ELSE IF NeedStart THEN Input(InStart)
@@ -55,6 +57,7 @@ Rec ==
   CASE obs'.t = "in" -> [t |-> "in", in |-> obs'.in, effs |-> obs'.effs, post |-> ProjState(sm'), vc |-> VcDigest(sm')]
     [] obs'.t = "eff" -> [t |-> "eff", e |-> obs'.effs[1]]
     [] obs'.t = "crash" -> [t |-> "crash"]
+    [] obs'.t = "stop" -> [t |-> "stop"]
     [] obs'.t = "recover" -> [t |-> "recover", h |-> sm'.h, entries |-> obs'.acts]
     [] obs'.t = "rp" -> [t |-> "rp", e |-> obs'.e, effs |-> obs'.effs, post |-> ProjState(sm')]
     [] obs'.t = "skip" -> [t |-> "skip", e |-> obs'.e]
@@ -66,7 +69,7 @@ Emit ==
   /\ PrintT(ToJson(hist))
   /\ sm' = InitProc(Me, H0) /\ mode' = "listen" /\ queue' = <<>> /\ rq' = <<>> /\ pending' = <<>>
   /\ durable' = <<>> /\ pruned' = 0 /\ tmo' = {} /\ sent' = <<>> /\ commits' = <<>> /\ ghost' = {}
-  /\ ref' = InitProc(Me, H0) /\ ok' = OkInit /\ nin' = 0 /\ ncr' = 0 /\ obs' = NoObs
+  /\ ref' = InitProc(Me, H0) /\ ok' = OkInit /\ pre' = NoPre /\ nin' = 0 /\ ncr' = 0 /\ obs' = NoObs
   /\ hist' = <<>> /\ steps' = 0
 
 \* stop at a quiescent point (no half-executed input) once MaxSteps is reached, or when done
